@@ -277,8 +277,9 @@ def oracle_search(rep, cx, case, stats):
                 # synsets(form, pos) filters on the synset's part of speech
                 if len(set(gy)) != len(gy) or set(gy) != set(ey):
                     extra_y = set(gy) - set(ey)
-                    if extra_y and not (set(ey) - set(gy)) and _leak_via_unselected(uni, extra_y, sel):
-                        rep.known('F14', 'synsets(form) in a restricted Wordnet matches through senses/forms contributed by an '
+                    if extra_y and not (set(ey) - set(gy)) and _leak_via_unselected(uni, extra_y, sel, entries, form, prop,
+                                                                                    norm, allforms):
+                        rep.known('F14', 'synsets(form) in a restricted Wordnet matches through a form contributed by an '
                                   'extension outside the selection', c2, {'got': sorted(gy), 'expected': sorted(set(ey))})
                         stats['F14'] = stats.get('F14', 0) + 1
                     else:
@@ -288,9 +289,17 @@ def oracle_search(rep, cx, case, stats):
             stats['search_hits'] = stats.get('search_hits', 0) + 1
 
 
-def _leak_via_unselected(uni, extra, sel):
-    """the extra synsets are linked to a matching word only through lexicons outside the selection"""
-    return any(x not in sel for sp, _ in extra for x in uni.family(sp))
+def _leak_via_unselected(uni, extra, sel, entries, form, prop, norm, allforms):
+    """F14 for synsets(form): every extra synset is the synset of a sense *of the selection* whose word matches only through
+    a form that an extension outside the selection added to it.  (A synset reached through a sense that an unselected
+    extension contributes was the separate defect F22, repaired in /repo: it is a failure, not a known finding.)"""
+    reach = set()
+    for s, e in entries:
+        if _f14(uni, s, e['id'], form, prop, norm, allforms, sel):
+            for s_, se in uni.senses_of_entry(s, e['id'], set(sel)):
+                ysp, _yy = uni.owner_synset(s_, se['synset'])
+                reach.add((ysp, se['synset']))
+    return all(y in reach for y in extra)
 
 
 def _f14(uni, sp, eid, form, prop, norm, allforms, sel):
